@@ -100,6 +100,21 @@ def run_case(case, ctx):
         sa = specs[case["i"]]
         A = lsops.build_exact(sa)
         check_norms(ctx, A, lsops.exact_ref(A), "exact", {"A": sa})
+        if sa[0] == "dgm":
+            # landscapes constructed with compute=False: the norm is the FIRST thing asked of the object
+            # (a fresh object per question, the sweep has not run yet)
+            from persim import PersLandscapeExact
+
+            ref_fs = lsops.exact_ref(A)
+            for first in ("sup", 1, 2, 3.5):
+                Dl = PersLandscapeExact(dgms=[np.array(sa[1], dtype=float)], hom_deg=0, compute=False)
+                v = ctx.call(Dl.sup_norm) if first == "sup" else ctx.call(Dl.p_norm, first)
+                ref = P.sup_norm(ref_fs) if first == "sup" else P.p_norm(ref_fs, first)
+                ctx.valid()
+                ctx.nontriv("norm_of_deferred_landscape", key=("exact", first))
+                if not (is_num(v) and abs(float(v) - ref) <= RTOL * max(ref, 1e-12)):
+                    ctx.violation("norm-deferred-exact", "%s of a landscape built with compute=False is not the norm of the diagram's landscape"
+                                  % ("sup_norm" if first == "sup" else "p_norm(%r)" % first), observed=v if is_num(v) else repr(v), expected=ref, extra={"A": sa})
         # scaled copies (abscissae and ordinates): every numeric scale, homogeneity in both directions;
         # p = 50 only where |f|^51 neither under- nor overflows in float64
         for s in SCALES:
@@ -144,6 +159,18 @@ def run_case(case, ctx):
             return
         check_norms(ctx, A, lsops.approx_ref(A), "grid", {"grid": grid, "A": sa})
         from persim import PersLandscapeApprox
+
+        if sa[0] == "dgm":
+            ref_fs = lsops.approx_ref(A)
+            for first in ("sup", 1, 2, 3.5):
+                Dl = PersLandscapeApprox(dgms=[np.array(sa[1], dtype=float)], hom_deg=0, start=grid[0], stop=grid[1], num_steps=grid[2], compute=False)
+                v = ctx.call(Dl.sup_norm) if first == "sup" else ctx.call(Dl.p_norm, first)
+                ref = P.sup_norm(ref_fs) if first == "sup" else P.p_norm(ref_fs, first)
+                ctx.valid()
+                ctx.nontriv("norm_of_deferred_landscape", key=("grid", first))
+                if not (is_num(v) and abs(float(v) - ref) <= RTOL * max(ref, 1e-12)):
+                    ctx.violation("norm-deferred-grid", "%s of a grid landscape built with compute=False is not the norm of the sampled landscape"
+                                  % ("sup_norm" if first == "sup" else "p_norm(%r)" % first), observed=v if is_num(v) else repr(v), expected=ref, extra={"A": sa, "grid": grid})
 
         # other dtypes of the values array on a grid with non-integer nodes
         va = np.asarray(A.values, dtype=float)
